@@ -4,7 +4,7 @@ from . import dispatcher
 from . import error
 from . import utils
 from .utils import DEFAULT
-from .._compat import string_types
+from .._compat import number_types, string_types
 
 
 @dispatcher.register_for('CHOOSE')
@@ -22,6 +22,16 @@ def CHOOSE(*args):
         return error.VALUE
 
     return args[index]
+
+
+def _kind(value):
+    if isinstance(value, bool):
+        return 'logical'
+    if isinstance(value, number_types):
+        return 'number'
+    if isinstance(value, string_types):
+        return 'text'
+    return type(value)
 
 
 @dispatcher.register_for('MATCH')
@@ -45,6 +55,10 @@ def MATCH(lookup_value, lookup_array, match_type=1):
     index = None
     index_value = None
     for idx in range(len(lookup_array)):
+        # like is compared with like: text never equals (or orders against) a number, and
+        # TRUE is not 1 - an item of another kind is passed over, as in a sheet
+        if _kind(lookup_array[idx]) != _kind(lookup_value):
+            continue
         if match_type == 1:
             if lookup_array[idx] == lookup_value:
                 return idx + 1
